@@ -36,7 +36,7 @@ def write_cfg(path, constants, invariants, properties, spec="MCSpec", view="MCVi
 
 
 ENGINE_INVS = ["InvRTCNoNesting", "InvQuiescent", "InvExactlyOneActive", "InvOneAtATime",
-               "InvViewOK", "InvPendingWF", "ResultOnlyBeforeOn"]
+               "InvViewOK", "InvPendingWF", "ResultOnlyBeforeOn", "ActivatedBeforeFirstEvent"]
 ENGINE_PROPS = ["PropFirstEnabledWins", "PropCurOnlyInAssign", "PropPhaseOrder", "PropQueueFIFO",
                 "PropFailureState", "PropIsolation", "NoCandidateOutcome", "DroppedNeverRun"]
 
@@ -252,3 +252,15 @@ def replay_file(chk, path):
         return 1
     vs = run_validate(chk, [scn], "replay", shards=1)
     return 0 if vs and vs[0]["ok"] and not chk.violations else 1
+
+
+def standard(chk, rng, *, family_kw, consts, required, scen_fn, n_random, n_hist, fam_size,
+             shards, label, hist_consts=None):
+    """The three legs shared by the engine-level checks."""
+    import gen
+    fam = [gen.family_member(rng, **family_kw) for _ in range(fam_size)]
+    mc_run(chk, fam, consts, required=required, label=f"{label} family")
+    hs = hist_scenarios(chk, fam, hist_consts or consts, limit=n_hist)
+    run_validate(chk, hs, f"{label}: spec-behaviour replay", shards=shards)
+    run_validate(chk, [scen_fn(rng) for _ in range(n_random)], f"{label}: random scenarios", shards=shards)
+    return fam
